@@ -51,7 +51,11 @@ fn judge_pair(col: &mut Collector, first: Cpr, second: Cpr, truth: Option<(f64, 
     col.count("pairs_judged", 1);
     col.seen_hash((u64::from(first.yz) << 47) ^ (u64::from(first.xz) << 30) ^ (u64::from(second.yz) << 13) ^ u64::from(second.xz) ^ (u64::from(first.odd) << 63) ^ (u64::from(second.odd) << 62));
     let a = alt(first);
-    let b = alt(second);
+    let mut b = alt(second);
+    if tag.starts_with("twin") {
+        // the two reports differ in nothing but their parity bit (and, for "twin_cpr", the CPR values)
+        b = Altitude { odd_flag: b.odd_flag, lat_cpr: b.lat_cpr, lon_cpr: b.lon_cpr, ..a };
+    }
     let got = match mon::guarded(|| rcpr::get_position((&a, &b))) {
         Ok(g) => g,
         Err((loc, msg)) => {
@@ -255,6 +259,25 @@ pub fn run(ctx: &Ctx) -> i32 {
         }
     });
     col.merge(c);
+    // twins: reports that agree in every field but the parity bit - also in the CPR values
+    // (around 0 N 0 E the even and the odd encoding of a place coincide) - in both orders
+    let c = par_units(ctx, "c05-twins", 64, |_, r, col, _| {
+        for k in 0..ctx.q(1500u64, 60_000) {
+            let (yz, xz) = match k % 4 {
+                0 => (r.below(131072) as u32, r.below(131072) as u32),
+                1 => (r.below(4000) as u32, r.below(4000) as u32),
+                2 => (131071 - r.below(4000) as u32, r.below(4000) as u32),
+                _ => (r.below(4000) as u32, 131071 - r.below(4000) as u32),
+            };
+            let odd = r.bool();
+            judge_pair(col, Cpr { odd, yz, xz }, Cpr { odd: !odd, yz, xz }, None, "twin_all");
+            let t = cpr::encode((r.f64() - 0.5) * 6.0, (r.f64() - 0.5) * 6.0, odd);
+            let u = Cpr { odd: !odd, yz: t.yz, xz: t.xz };
+            judge_pair(col, t, u, None, "twin_all");
+            judge_pair(col, Cpr { odd, yz, xz }, Cpr { odd: !odd, yz: r.below(131072) as u32, xz: r.below(131072) as u32 }, None, "twin_cpr");
+        }
+    });
+    col.merge(c);
     let e = [0u32, 1, 65535, 65536, 65537, 131071];
     for &a in &e {
         for &b in &e {
@@ -276,7 +299,7 @@ pub fn run(ctx: &Ctx) -> i32 {
     let distinct = col.distinct.len() as u64;
     let info = ctx.info(
         "exploration",
-        "ordered CPR pairs judged against the reference decoder: (a) every reachable zone latitude of both parities as true latitude (exhaustive in thorough, stride 16 in quick) x NL-sensitive longitudes x both orders, (b) +-64..400 reachable latitudes around each of the 58 NL transitions x parity x hemisphere, with and without <=3 NM displacement, (c) area-uniform random truths with displacement + dense polar/equator/antimeridian regions, (d) random and edge raw quadruples incl. equal parity. distinct_nontrivial = distinct ordered pairs (hash of the six values; exact up to 4M, then a lower bound); classes = distinct (reference outcome, region, NL) cells observed",
+        "ordered CPR pairs judged against the reference decoder: (a) every reachable zone latitude of both parities as true latitude (exhaustive in thorough, stride 16 in quick) x NL-sensitive longitudes x both orders, (b) +-64..400 reachable latitudes around each of the 58 NL transitions x parity x hemisphere, with and without <=3 NM displacement, (c) area-uniform random truths with displacement + dense polar/equator/antimeridian regions, (d) random and edge raw quadruples incl. equal parity, (e) twins: pairs that agree in every field but the parity bit, CPR values included. distinct_nontrivial = distinct ordered pairs (hash of the six values; exact up to 4M, then a lower bound); classes = distinct (reference outcome, region, NL) cells observed",
         &["NL from the closed formula with the explicit clause NL(+-87 deg)=2", "pairs whose latitude is within 1e-7 NL units of a transition are skipped as ambiguous (counted)"],
         100_000,
     );
